@@ -102,7 +102,7 @@ pub fn touched(sem: &Sem) -> Vec<String> {
                 }
             }
             Sem::ListIns { .. } | Sem::ListDel { .. } | Sem::GIns { .. } => out.push("list".into()),
-            Sem::Dot { .. } | Sem::Pn { .. } => out.push("counter".into()),
+            Sem::Dot { .. } | Sem::Pn { .. } | Sem::Inc { .. } => out.push("counter".into()),
             Sem::Val { .. } | Sem::Lww { .. } => out.push("reg".into()),
             Sem::Merkle { .. } => out.push("dag".into()),
             Sem::None => {}
